@@ -43,6 +43,19 @@ CARRIERS = [
 ]
 
 
+
+def scaling_flag_ids(tn):
+    """ids of the locals that decide whether an operator is scaled: initialised as `<table>[..][..] || m_scaleModulators`"""
+    ids = set()
+    for b, j, st in tn.cfg.stmts():
+        if st['s'].get('k') == 'DeclStmt':
+            for v in st['s']['decls']:
+                i = strip(v.get('init')) if v.get('init') is not None else None
+                if i is not None and i.get('k') == 'BinaryOperator' and i.get('op') == '||' and mentions(i, member_named('m_scaleModulators')):
+                    ids.add(v['id'])
+    return ids
+
+
 def views(tier):
     return ['V0'] if tier == 'quick' else ['V0', 'noVGM', 'noSEQ']
 
@@ -84,6 +97,9 @@ def analyse(facts, tier):
     obls = []
     res = e2prog.analyse_program(facts)
     tn = facts.fn('OPN2::touchNote')
+    SCALE_IDS = scaling_flag_ids(tn)
+    if not SCALE_IDS:
+        raise build.AnalysisBroken('C11: the scaling decision of touchNote (<table>[alg][op] || m_scaleModulators) not found')
     nu = facts.fn('OPNMIDIplay::noteUpdate')
     pr = res['param_ranges']
     names = [p['n'] for p in tn.params]
@@ -112,7 +128,7 @@ def analyse(facts, tier):
     levels = []
     def lvl_hook(e_, e, st):
         for x in walk(e):
-            if x.get('k') == 'ConditionalOperator' and mentions(x['cnd'], ref_named('do_op')):
+            if x.get('k') == 'ConditionalOperator' and mentions(x['cnd'], lambda y: y.get('k') == 'DeclRefExpr' and y.get('id') in SCALE_IDS):
                 levels.append((x.get('ln'), 'scaled level (do_op)', e_.ev(x['l'], st)))
             ap = assign_parts(x)
             if ap and strip(ap[0]).get('k') == 'DeclRefExpr' and short(strip(ap[0])['n']) == 'vol_res':
@@ -193,7 +209,7 @@ def analyse(facts, tier):
         raise build.AnalysisBroken('C11.R3: local `volume` not found')
     def dir_hook(e_, e, st):
         for x in walk(e):
-            if x.get('k') == 'ConditionalOperator' and mentions(x['cnd'], ref_named('do_op')):
+            if x.get('k') == 'ConditionalOperator' and mentions(x['cnd'], lambda y: y.get('k') == 'DeclRefExpr' and y.get('id') in SCALE_IDS):
                 # evaluate the direction of the scaled branch with `volume` as the input
                 save = e_.wrt, dict(e_.mono)
                 e_.wrt = ('v', vol_id); e_.mono = {}
@@ -270,12 +286,16 @@ def analyse(facts, tier):
         s = st_['s']
         if s.get('k') == 'DeclStmt':
             for v in s['decls']:
-                if v['n'] == 'do_op' and 'init' in v:
+                if v['id'] in SCALE_IDS and 'init' in v:
                     i = strip(v['init'])
-                    okd = i.get('k') == 'BinaryOperator' and i['op'] == '||' and mentions(i['l'], ref_named('alg_do')) and mentions(i['r'], member_named('m_scaleModulators'))
-                if v['n'] == 'alg' and 'init' in v:
+                    # <carrier table>[algorithm][operator] || m_scaleModulators: the left operand is a doubly subscripted local table
+                    l_ = strip(i['l'])
+                    okd = i.get('k') == 'BinaryOperator' and i['op'] == '||' and l_.get('k') == 'ArraySubscriptExpr' and strip(l_.get('b')).get('k') == 'ArraySubscriptExpr' and \
+                        mentions(i['r'], member_named('m_scaleModulators'))
+                if 'init' in v:
                     i = strip(v['init'])
-                    oka = i.get('k') == 'BinaryOperator' and i['op'] == '&' and const_of(i['r']) == 7 and mentions(i['l'], member_named('fbalg'))
+                    if i.get('k') == 'BinaryOperator' and i['op'] == '&' and const_of(i['r']) == 7 and mentions(i['l'], member_named('fbalg')):
+                        oka = True
     obls.append(Obl('C11.R4', tn.name, 'operator is scaled iff carrier or modulator scaling', tn.loc, 'discharged' if (okd and oka) else 'finding',
                     why='do_op = alg_do[fbalg & 7][op] || m_scaleModulators' if (okd and oka) else 'scaling decision is not (carrier || modulator scaling) on algorithm fbalg & 7'))
     # brightness branch only under brightness != 127 and only for unscaled operators
